@@ -44,6 +44,7 @@ def base_paths(maxseg):
                 out.append(("/" + p + trail) if n else "")
                 if n and not p.startswith("/") and ":" not in t[0]:
                     out.append(p + trail)
+    out += ["/d/archive.tar.gz", "/d/.hidden.tar.gz", "x.y.z", "/a.b/c.d.e/", "/...tar", "/..gz"]
     return list(dict.fromkeys(out))
 
 
@@ -69,6 +70,8 @@ def ref_suffixes(name):
 def check_static(u):
     probs = []
     rp, raw = u.raw_parts, u.raw_path
+    if u.raw_authority and any(sg in (".", "..") for sg in raw.split("/")):
+        probs.append("dot segment in the path %r of a URL with an authority" % raw)
     if rp and rp[0] == "/":
         comp = "/" + "/".join(rp[1:])
     else:
@@ -176,12 +179,12 @@ def case_join2(acc, prefix, path, a_, b_):
     return res[0]
 
 
-def case_with_name(acc, prefix, path, n):
+def case_with_name(acc, prefix, path, n, keep=False):
     acc.evals += 1
-    base = prefix + path
+    base = prefix + path + ("?q=1#f" if keep else "")
     try:
         u = impl.URL(base)
-        r = u.with_name(n)
+        r = u.with_name(n, keep_query=True, keep_fragment=True) if keep else u.with_name(n)
     except (ValueError, TypeError):
         acc.count("rejected")
         return None
@@ -197,18 +200,20 @@ def case_with_name(acc, prefix, path, n):
         probs.append("with_name changed other segments: %r -> %r" % (u.raw_parts, r.raw_parts))
     if r.scheme != u.scheme or r.raw_authority != u.raw_authority:
         probs.append("scheme/authority changed")
+    if (r.raw_query_string, r.raw_fragment) != (("q=1", "f") if keep else ("", "")):
+        probs.append("query/fragment %r/%r" % (r.raw_query_string, r.raw_fragment))
     if probs:
-        acc.viol("with_name", (prefix, path, n), observed=str(r), expected="name replaced, parent unchanged",
+        acc.viol("with_name", (prefix, path, n, keep), observed=str(r), expected="name replaced, parent unchanged",
                  msg="URL(%r).with_name(%r) -> %r: %s" % (base, n, str(r), "; ".join(probs)))
     return str(r)
 
 
-def case_with_suffix(acc, prefix, path, x):
+def case_with_suffix(acc, prefix, path, x, keep=False):
     acc.evals += 1
-    base = prefix + path
+    base = prefix + path + ("?q=1#f" if keep else "")
     try:
         u = impl.URL(base)
-        r = u.with_suffix(x)
+        r = u.with_suffix(x, keep_query=True, keep_fragment=True) if keep else u.with_suffix(x)
     except (ValueError, TypeError):
         acc.count("rejected")
         return None
@@ -236,7 +241,7 @@ def case_with_suffix(acc, prefix, path, x):
     except (ValueError, TypeError):
         pass
     if probs:
-        acc.viol("with_suffix", (prefix, path, x), observed=str(r), expected="only the suffix replaced",
+        acc.viol("with_suffix", (prefix, path, x, keep), observed=str(r), expected="only the suffix replaced",
                  msg="URL(%r).with_suffix(%r) -> %r: %s" % (base, x, str(r), "; ".join(probs)))
     return str(r)
 
@@ -305,13 +310,15 @@ def task_paths(prefix, maxseg, k, part, nparts):
             if r is not None:
                 states.add(r)
         for n in names[:60] + ["a.b", ".hidden", "x.tar.gz"]:
-            r = case_with_name(acc, prefix, path, n)
-            if r is not None:
-                states.add(r)
+            for keep in (False, True):
+                r = case_with_name(acc, prefix, path, n, keep)
+                if r is not None:
+                    states.add(r)
         for x in SUFFIXES:
-            r = case_with_suffix(acc, prefix, path, x)
-            if r is not None:
-                states.add(r)
+            for keep in (False, True):
+                r = case_with_suffix(acc, prefix, path, x, keep)
+                if r is not None:
+                    states.add(r)
         r = case_parent(acc, prefix, path)
         if r is not None:
             states.add(r)
